@@ -649,10 +649,6 @@ def plan_set_data(w: World, op: dict) -> Plan:
             return Plan(SKIP)
     else:
         data = None
-    if data is not None and not data:
-        return Plan(EXCLUDED, why="falsy data")
-    if data_id is not None and not data_id:
-        return Plan(EXCLUDED, why="falsy data_id")
 
     kw = {}
     if data_id is not None:
